@@ -12,7 +12,7 @@ VALIDATION_CASES = {'quick': 80, 'thorough': 300}
 TIME_BUDGET = {'quick': 900, 'thorough': 3300}
 OPTS = c03.OPTS
 BOUNDS = {
-    'quick': 'the 19 well-formed merge tables of harnesses/c03.py, max_vocab_size None / truncating to the first merge / below '
+    'quick': 'the 21 well-formed merge tables of harnesses/c03.py plus 16 generated tables sampled per VERIF_SEED, max_vocab_size None / truncating to the first merge / below '
              '256; texts of <= 4 symbolic characters over {a, b, c, d, space, tab, ä} (<= 3 with one unconstrained 3-byte '
              'character), special configs default and bos_eos (prefix / suffix); special tokens ignored on both sides',
     'thorough': 'texts of <= 5 symbolic characters',
@@ -32,6 +32,11 @@ def shapes(tier):
             for mv in (None, 'first', 'tiny'):
                 if mv and (ln < 2 or not TABLES[tb]):
                     continue
+                out.append({'table': tb, 'len': ln, 'special': 'default' if mv != 'first' else 'bos_eos', 'max_vocab': mv})
+    import os
+    for tb in c03.random_tables(int(os.environ.get('VERIF_SEED', '0') or 0), 16 if tier == 'quick' else 120):
+        for ln in range(3, c03.TABLE_ALPHA[tb][1] + 1):
+            for mv in (None, 'first'):
                 out.append({'table': tb, 'len': ln, 'special': 'default' if mv != 'first' else 'bos_eos', 'max_vocab': mv})
     out.append({'table': 'chain', 'len': 3, 'special': 'bos_eos', 'wide': True, 'max_vocab': None})
     out.sort(key=lambda s: -s['len'])
